@@ -13,6 +13,17 @@ extern "C" {
     fn signal(sig: i32, handler: usize) -> usize;
     fn kill(pid: i32, sig: i32) -> i32;
     fn getpid() -> i32;
+    fn alarm(seconds: u32) -> u32;
+    fn prctl(option: i32, arg2: u64, arg3: u64, arg4: u64, arg5: u64) -> i32;
+}
+
+/// child processes of a shard must not outlive it: die with the parent, and in any case after `seconds`
+pub fn child_lifetime(seconds: u32) {
+    const PR_SET_PDEATHSIG: i32 = 1;
+    unsafe {
+        prctl(PR_SET_PDEATHSIG, SIGKILL as u64, 0, 0, 0);
+        alarm(seconds);
+    }
 }
 
 const RLIMIT_FSIZE: i32 = 1;
